@@ -1583,6 +1583,10 @@ def build(tier, seed):
     obs.append(Ob("C14.history.behavior.elastic.Set_C", ob_behavior_elastic_change, ("auto", True), "X", ("EasyFEA/Models/Elastic/_laws.py::Anisotropic.Set_C", "EasyFEA/Models/InElastic/_behavior.py::Behavior._Update"),
                   bound="one von Mises / linear hardening behaviour on an Anisotropic elastic law, 6 strain states, the matrix replaced three times through Set_C", timeout=300,
                   clause="after Set_C on the elastic law of an inelastic behaviour, Integrate returns what a behaviour built on the new matrix returns"))
+    from . import C15 as _C15
+    obs.append(Ob("C14.history.phasefield.HistoryDamage.unload", _C15.ob_roundtrip, ("PhaseField", "memory", False, "HistoryDamage.Bourdin.unload"), "X",
+                  ("EasyFEA/Simulations/_phasefield.py::PhaseField.Solve", "EasyFEA/Simulations/_simu.py::_Simu.Get_K_C_M_F"), bound="load / unload / reload on a small mesh, HistoryDamage solver, isotropic degradation", timeout=300,
+                  clause="after a solve that replaces the damage by max(d_old, d_new) the elastic system handed out is that of the damage the simulation holds (same as after a forced update)"))
     for what in ("scheme", "scheme.back", "active"):
         obs.append(Ob(f"C14.history.hyperelastic.stale.{what}", ob_he_system_stale, (what,), "X", ("EasyFEA/Simulations/_simu.py::_Simu.Solver_Set_Hyperbolic_Algorithm", "EasyFEA/Simulations/_simu.py::_Simu.Solver_Set_Elliptic_Algorithm",
                       "EasyFEA/Models/HyperElastic/_laws.py::_HyperElastic.Set_active_stress_vec"), bound="one solved static step on a 4-element patch", timeout=300,
